@@ -198,11 +198,13 @@ def default_command(ctx):
             finally:
                 out.close() if how == "full" else os.close(out)
             ctx.count(("default-command", tuple(opts), how), True, "default-command")
-            if p.returncode != 123:
-                ctx.violation("xargs %s (no command: echo) with standard output %s: exit %d; every echo failed: 123 (%s)"
-                              % (" ".join(opts), "on a full device" if how == "full" else "a closed pipe", p.returncode, p.stderr.decode("utf-8", "replace")[:100]),
+            # a full device: every echo fails (123); a pipe nobody reads: the first echo is killed by SIGPIPE (125, at once) - what a real echo does
+            want = 123 if how == "full" else 125
+            if p.returncode != want:
+                ctx.violation("xargs %s (no command: echo) with standard output %s: exit %d; expected %d (%s)"
+                              % (" ".join(opts), "on a full device" if how == "full" else "a closed pipe", p.returncode, want, p.stderr.decode("utf-8", "replace")[:100]),
                               {"property": "C19", "kind": "default-command", "options": opts, "stdout": how, "exit": p.returncode,
-                               "stderr": p.stderr.decode("utf-8", "replace")[:300], "expected_exit": 123})
+                               "stderr": p.stderr.decode("utf-8", "replace")[:300], "expected_exit": want})
 
 
 def panic_inventory(ctx):
